@@ -913,8 +913,36 @@ var hostileBases = []string{
 }
 
 func genHostile(t *rapid.T) C12HostileCase {
-	c := C12HostileCase{Listener: rapid.SampledFrom([]string{"plain", "plain", "mitm", "mitm-raw"}).Draw(t, "listener")}
-	switch rapid.IntRange(0, 6).Draw(t, "kind") {
+	c := C12HostileCase{Listener: rapid.SampledFrom([]string{"plain", "plain", "mitm", "mitm-raw", "pp"}).Draw(t, "listener")}
+	kind := rapid.IntRange(0, 6).Draw(t, "kind")
+	if c.Listener == "pp" {
+		defer func() {
+			if kind != 7 {
+				c.Data = append([]byte(ppLine), c.Data...) // a peer that introduces itself properly and then turns hostile
+			}
+		}()
+		if rapid.Bool().Draw(t, "pphdr") {
+			kind = 7
+		}
+	}
+	switch kind {
+	case 7:
+		// the listener that expects a PROXY header gets a version-2 header from the peer: declared length anywhere between
+		// nothing and the 16-bit maximum - around every size a reader might have planned for -, address block and TLVs
+		// filled with anything, complete or cut short; a request follows
+		l := rapid.SampledFrom([]int{0, 12, 36, 216, 200, 232, 248, 256, 512, 536, 1024, 4096, 65535}).Draw(t, "pplen")
+		l = max(0, min(65535, l+rapid.IntRange(-17, 17).Draw(t, "pplenoff")))
+		vc := rapid.SampledFrom([]byte{0x21, 0x21, 0x20, 0x11, 0x2f, 0x31}).Draw(t, "ppvercmd")
+		fam := rapid.SampledFrom([]byte{0x11, 0x21, 0x31, 0x12, 0x22, 0x00, 0xff}).Draw(t, "ppfam")
+		h := append([]byte("\r\n\r\n\x00\r\nQUIT\n"), vc, fam, byte(l>>8), byte(l))
+		fill := rapid.SampledFrom([]byte{0x00, 0x01, 0x7f, 0xff, 0x04}).Draw(t, "ppfill")
+		sent := l
+		if rapid.IntRange(0, 3).Draw(t, "ppshort") == 0 {
+			sent = rapid.IntRange(0, l).Draw(t, "ppsent")
+		}
+		h = append(h, bytes.Repeat([]byte{fill}, sent)...)
+		c.Data = append(h, []byte("GET http://origin.test:80/h HTTP/1.1\r\nHost: origin.test:80\r\n\r\n")...)
+	
 	case 0:
 		c.Data = rapid.SliceOfN(rapid.Byte(), 0, 200).Draw(t, "garbage")
 	case 6:
@@ -988,6 +1016,9 @@ func runHostile(c C12HostileCase) (fails []vstat.Failure) {
 	if c.Listener != "plain" {
 		px = e.proxies["mitm"]
 	}
+	if c.Listener == "pp" {
+		px = e.proxies["pp"]
+	}
 	tc, err := Dial(px.Addr)
 	if err != nil {
 		return []vstat.Failure{vstat.Failf(key("dial"), "proxy does not accept connections: %v", err)}
@@ -995,7 +1026,7 @@ func runHostile(c C12HostileCase) (fails []vstat.Failure) {
 	defer tc.Close()
 	tc.SetDeadline(time.Now().Add(8 * time.Second))
 	var conn net.Conn = tc
-	if c.Listener != "plain" {
+	if c.Listener != "plain" && c.Listener != "pp" {
 		fmt.Fprintf(tc, "CONNECT tls.test:443 HTTP/1.1\r\nHost: tls.test:443\r\n\r\n")
 		if m, err := ReadResponse(bufio.NewReader(tc), "CONNECT"); err != nil || m.Status != 200 {
 			return []vstat.Failure{vstat.Failf(key("setup"), "MITM CONNECT: %v", err)}
@@ -1058,6 +1089,10 @@ var propHostile = vstat.Prop[C12HostileCase]{Name: "TestC12Hostile", Gen: genHos
 		first, _, _ := bytes.Cut(c.Data, []byte("\r\n"))
 		okLine := bytes.HasSuffix(first, []byte("HTTP/1.1")) || bytes.HasSuffix(first, []byte("HTTP/1.0"))
 		cls := []string{"listener-" + c.Listener}
+		if c.Listener == "pp" && bytes.HasPrefix(c.Data, []byte("\r\n\r\n\x00\r\nQUIT\n")) && len(c.Data) >= 16 {
+			cls = append(cls, "pp-v2-header-from-the-peer")
+			okLine = true
+		}
 		if okLine {
 			cls = append(cls, "first-line-intact")
 		}
@@ -1074,9 +1109,11 @@ func FuzzC12Hostile(f *testing.F) {
 	for _, b := range hostileBases {
 		f.Add([]byte(b), uint8(0))
 		f.Add([]byte(b), uint8(1))
+		f.Add([]byte(ppLine+b), uint8(3))
 	}
+	f.Add([]byte("\r\n\r\n\x00\r\nQUIT\n\x21\x11\x00\x0c\x0a\x01\x02\x03\x0a\x04\x05\x06\x04\x57\x08\xaeGET http://origin.test:80/h HTTP/1.1\r\nHost: origin.test:80\r\n\r\n"), uint8(3))
 	f.Fuzz(func(t *testing.T, data []byte, l uint8) {
-		c := C12HostileCase{Listener: []string{"plain", "mitm", "mitm-raw"}[int(l)%3], Data: data}
+		c := C12HostileCase{Listener: []string{"plain", "mitm", "mitm-raw", "pp"}[int(l)%4], Data: data}
 		st.Current("TestC12Hostile", c)
 		fails := runHostile(c)
 		nt, fp, cls := propHostile.Classify(c)
